@@ -3,8 +3,8 @@ import re
 from vcore import Case, Harness, SDK_INCLUDES, sdk_sources
 
 ID = 'C06'
-GEN = ['MetricsTemporal']
-LEAN_TARGETS = ['OtelVerif.Props.C06']
+GEN = ['MetricsTemporal', 'MeterRegLock', 'GetScopeLock']
+LEAN_TARGETS = ['OtelVerif.Props.C06', 'OtelVerif.Props.C06Race']
 THEOREMS = ['Otel.C06.' + t for t in (
     # the inductive invariant and the refinement to the specification (storage level)
     'inv_run', 'collect_matches',
@@ -23,14 +23,16 @@ THEOREMS = ['Otel.C06.' + t for t in (
     # literal facts of the source text the model depends on (generated fragment)
     'gen_fast_path', 'gen_sum_signs',
     # map algebra the above stands on
-)] + ['Otel.Temporal.' + t for t in ('valAt_addTo', 'valAt_mergeInto', 'valAt_mergeAll', 'valAt_eq_lookup', 'NoDup_mergeAll', 'fastPath_def')]
+)] + ['Otel.C06Race.' + t for t in ('handles_share_one_storage', 'handed_out_storage_stays_registered', 'gen_meter_registry_lock_facts')] + ['Otel.GetScopeLock.reachable_inv'] + ['Otel.Temporal.' + t for t in ('valAt_addTo', 'valAt_mergeInto', 'valAt_mergeAll', 'valAt_eq_lookup', 'NoDup_mergeAll', 'fastPath_def')]
 HARNESSES = [Harness('s_c06', ['harness/s_c06.cc'], sdk_srcs=sdk_sources('common', 'resource', 'version', 'metrics'),
                      includes=SDK_INCLUDES)]
 H = 's_c06'
 SHIM = ['-include', 'harness/shim/detsched.h', '-DNDEBUG']
 H_SYN = Harness('d_syn', ['harness/d_sync.cc'], flags=SHIM, includes=SDK_INCLUDES, plain_srcs=['harness/shim/detsched.cc'],
                 sdk_srcs=sdk_sources('common', 'resource', 'version', 'metrics'))
-HARNESSES = HARNESSES + [H_SYN]
+H_MRG = Harness('d_mrg', ['harness/d_meterreg.cc'], flags=SHIM, includes=SDK_INCLUDES, plain_srcs=['harness/shim/detsched.cc'],
+                sdk_srcs=sdk_sources('common', 'resource', 'version', 'metrics'))
+HARNESSES = HARNESSES + [H_SYN, H_MRG]
 RULE = ('histories of 20-200 operations (create handle / Add / Collect; 8% of them with real-thread `race` operations: 1-4 recorder threads against a collecting thread) on a real MeterProvider with 1-3 explicit readers of '
         'mixed temporality, 0-3 views, 1-3 instrument names x {counter, up-down} x {long, double}, several handles per '
         'instrument, attribute sets from a pool of 6; every collection output of model and implementation compared, and the '
@@ -142,8 +144,42 @@ def gen_race_schedules(rng, tier):
     return out
 
 
+def gen_registry_schedules(rng, tier):
+    """threads that obtain their first handle of one instrument at the same time and record through it, on the real Meter
+    under the deterministic scheduler: all interleavings of the creation phase for two threads, then random schedules"""
+    out = []
+    # systematic: two threads on the same instrument, every interleaving of their first 5 steps each (the creation), then drained
+    import itertools
+    for kind in 'cuh':
+        for k in (3, 4, 5):
+            for pos in itertools.combinations(range(2 * k), k):
+                sched = ['t1'] * (2 * k)
+                for p in pos:
+                    sched[p] = 't0'
+                out.append(Case(f'mrg 2 aa 2 {kind} ; ' + ' ; '.join(sched), 'd_mrg', ('registry-race', 'systematic')))
+            if tier != 'thorough' and kind != 'c':
+                break
+    for _ in range(4000 if tier == 'thorough' else 400):
+        nth = rng.choice([2, 2, 3, 4])
+        names = ''.join(rng.choice('aab') for _ in range(nth))
+        adds = rng.randrange(1, 4)
+        n = rng.randrange(6, 60)
+        if rng.random() < 0.5:
+            sched = [rng.randrange(nth) for _ in range(n)]
+        else:
+            cur = rng.randrange(nth); sched = []
+            for _k in range(n):
+                if rng.random() < 0.3:
+                    cur = rng.randrange(nth)
+                sched.append(cur)
+        out.append(Case(f'mrg {nth} {names} {adds} {rng.choice("cuh")} ; ' + ' ; '.join(f't{t}' for t in sched), 'd_mrg', ('registry-race', 'random')))
+    out.append(Case('mrg 0 - 1 c', 'd_mrg', ('registry-race', 'malformed')))
+    out.append(Case('mrg 2 ad 1 c ; t0', 'd_mrg', ('registry-race', 'malformed')))
+    return out
+
+
 def generate(rng, tier):
-    return _generate(rng, tier) + gen_race_schedules(rng, tier)
+    return _generate(rng, tier) + gen_race_schedules(rng, tier) + gen_registry_schedules(rng, tier)
 
 
 def _generate(rng, tier):
@@ -202,6 +238,23 @@ def effective(kind, v):
 
 
 def oracle(case, out):
+    if case.line.startswith('mrg '):
+        if out.startswith('CRASH'):
+            return ('handles-obtained-concurrently/no-crash', out)
+        if out == 'bad-op':
+            return None if re.fullmatch(r'mrg [1-4] [abc]{1,4} [1-5] [cuh]( ; t\d+)*', case.line) is None or len(case.line.split()[2]) != int(case.line.split()[1]) else ('wellformed-case-accepted', out)
+        m = re.search(r'done=(\d) rec=(\S+) got=(\S+)$', out)
+        if not m or m.group(1) != '1':
+            return ('handles-obtained-concurrently/terminates', out[-120:])
+        rec = dict(x.split(':') for x in m.group(2).split(','))
+        for x in m.group(3).split(','):
+            nm, v = x.split(':')
+            tot, streams = v.split('/')
+            if streams != '1':
+                return ('one-stream-per-instrument-however-many-handles', f'instrument {nm}: {streams} streams exported')
+            if tot != rec[nm]:
+                return ('every-handle-of-an-instrument-records-into-its-stream', f'instrument {nm}: recorded {rec[nm]} through all handles, the reader was given {tot}')
+        return None
     if case.line.startswith('syn '):
         if out.startswith('CRASH'):
             return ('recorded-concurrently-with-collections/no-crash', out)
@@ -410,6 +463,8 @@ def signature(case, out, clause):
 
 
 def nontrivial(case, out):
+    if case.line.startswith(('syn ', 'mrg ')):
+        return len({t for t in case.line.split(' ; ')[1:]}) >= 2 and not out.startswith('bad-op')
     return case.line.count('; add ') >= 1 and case.line.count('; collect ') >= 2 and not out.startswith('bad-op')
 
 
@@ -435,6 +490,6 @@ def model_line(case, out):
 
 
 def agree(case, out, mout):
-    if case.line.startswith('syn '):
+    if case.line.startswith(('syn ', 'mrg ')):
         return out.split(' ; ')[-1] == mout      # only the schedule-independent summary is predicted
     return out == mout
